@@ -173,7 +173,7 @@ class Writer:
         is_ba = o.kind == "bytearray"
 
         def one(val, how):
-            if how in ("append", "init"):
+            if how in ("append", "init", "yield"):
                 if is_ba:
                     v = unsnap(val)
                     return [("const", bytes([cval(v)]))] if is_const(v) and isinstance(cval(v), int) and 0 <= cval(v) < 256 else [("int", 1, val, "big")]
@@ -206,7 +206,7 @@ class Writer:
         created = tuple(o.created_ctx)
         out: List[tuple] = []
         for val, ctx, how in o.items:
-            extra = [f for f in (tuple(ctx)[len(created):] if tuple(ctx)[:len(created)] == created else tuple(f for f in ctx if f not in created)) if f[0] not in ("call",)]
+            extra = [f for f in (tuple(ctx)[len(created):] if tuple(ctx)[:len(created)] == created else tuple(f for f in ctx if f not in created)) if f[0] not in ("call", "with", "with_")]
             if not extra:
                 out += one(val, how)
             elif len(extra) == 1 and extra[0][0] == "loop":
@@ -362,6 +362,17 @@ def extract_readers(ex, events: List[Event], reader_cls_names=("BytesReader",), 
             args = e.d["args"]
             r.raw = unsnap(args[0]) if args else e.d["kwargs"].get("raw")
             r.source = args[1] if len(args) > 1 else e.d["kwargs"].get("source")
+        elif e.kind == "new" and any(getattr(c_, "name", None) in reader_cls_names for c_ in e.d["cls"].mro()[1:]):
+            # a subclass of the reader (a helper class that did not exist on the pinned tree): the bytes it reads are what its constructor hands to the
+            # base class constructor (the first argument of the super().__init__ / BytesReader.__init__ call made while it is being built)
+            r = get(e.d["result"])
+            r.new_ev = e
+            base_inits = [c_ for c_ in events if c_.kind == "call" and c_.uid > e.uid and c_.d["callee"].name == "__init__" and c_.d["callee"].cls is not None
+                          and c_.d["callee"].cls.name in reader_cls_names and c_.d.get("recv") is not None and unsnap(c_.d["recv"]) is unsnap(e.d["result"])]
+            if base_inits:
+                a_ = [x for x in base_inits[0].d["args"] if unsnap(x) is not unsnap(e.d["result"])]
+                r.raw = unsnap(a_[0]) if a_ else base_inits[0].d["kwargs"].get("raw")
+                r.source = a_[1] if len(a_) > 1 else base_inits[0].d["kwargs"].get("source")
     for e in events:
         if e.kind == "mcall" and e.d["name"] in ("read", "tell", "seek", "readline", "getvalue"):
             recv = unsnap(e.d["recv"])
@@ -390,6 +401,18 @@ def extract_readers(ex, events: List[Event], reader_cls_names=("BytesReader",), 
                     pf.int_views.append(v)
                     pf.order = e.d["order"]
                     by_result[pf.result.uid] = pf
+                    parts.append(pf)
+                k_ = f.reader.flat.index(f)
+                f.reader.flat[k_:k_ + 1] = parts
+    # a, b, ... = reader.read(k): k one-byte fields whose values are the items of the bytes object
+    for e in events:
+        if e.kind == "unpack" and isinstance(e.d.get("n"), int) and e.d["n"] >= 2:
+            f = by_result.get(unsnap(e.d["value"]).uid)
+            if f is not None and is_const(f.size) and cval(f.size) == e.d["n"] and f in f.reader.flat:
+                parts = []
+                for i_ in range(e.d["n"]):
+                    pf = RField(f.reader, C(1), mk("slice", unsnap(e.d["value"]), C(i_), C(i_ + 1), NONE), f.ev)
+                    pf.int_views.append(mk("sub", unsnap(e.d["value"]), C(i_)))
                     parts.append(pf)
                 k_ = f.reader.flat.index(f)
                 f.reader.flat[k_:k_ + 1] = parts
